@@ -1,0 +1,54 @@
+//go:build verif
+
+package dastard
+
+import "fmt"
+
+// Verification hook for the ring-buffer check (C18): the AbacoRing device's use of the ring
+// (open + discard stale data on a packet boundary; read whole packets) on a ring with a chosen number.
+
+// VerifAbacoRing wraps an AbacoRing whose shared-memory names are derived from ringnum
+// (negative numbers are allowed by NewAbacoRing "for testing only").
+type VerifAbacoRing struct{ dev *AbacoRing }
+
+// VerifRingNames returns the shared-memory names an AbacoRing with this number uses.
+func VerifRingNames(ringnum int) (buffer, description string, err error) {
+	dev, err := NewAbacoRing(ringnum)
+	if err != nil {
+		return "", "", err
+	}
+	_ = dev
+	return verifRingName(ringnum, "buffer"), verifRingName(ringnum, "description"), nil
+}
+
+func verifRingName(ringnum int, what string) string {
+	if what == "buffer" {
+		return fmt.Sprintf("xdma%d_c2h_0_buffer", ringnum)
+	}
+	return fmt.Sprintf("xdma%d_c2h_0_description", ringnum)
+}
+
+// VerifOpenAbacoRing opens the ring as AbacoSource does when it starts the device: start() = Open,
+// read the packet size, discard stale data up to a packet boundary.
+func VerifOpenAbacoRing(ringnum int) (*VerifAbacoRing, error) {
+	dev, err := NewAbacoRing(ringnum)
+	if err != nil {
+		return nil, err
+	}
+	if err = dev.start(); err != nil {
+		return nil, err
+	}
+	return &VerifAbacoRing{dev: dev}, nil
+}
+
+// DiscardStale calls the device's discardStale.
+func (v *VerifAbacoRing) DiscardStale() error { return v.dev.discardStale() }
+
+// PacketSize is the packet size the device read from the ring description.
+func (v *VerifAbacoRing) PacketSize() int { return v.dev.packetSize }
+
+// Readable reports the ring's BytesReadable as the device sees it.
+func (v *VerifAbacoRing) Readable() int { return v.dev.ring.BytesReadable() }
+
+// Stop closes the device.
+func (v *VerifAbacoRing) Stop() error { return v.dev.stop() }
